@@ -11,4 +11,4 @@ CONF = {
     'shard_timeout': 900,
 }
 
-CHECK = None
+CHECK = {'text': "Theorem (inject_refines_spec) for every directory population, host oracle, OCI spec and EVERY request list: the model of InjectDevices on the refreshed cache equals the declarative inject_spec built from the precedence rule only; when all names resolve this is exactly ONE application (C03) of the combined list: per requested name, the spec-level edits of the file it resolves to unless an earlier requested name resolves to that file, then the device's edits (inject_is_apply_combined); every contribution stems from a requested name's resolution (provenance) and spec-level edits are contributed once per file (spec_edits_once). Tied to pkg/cdi by caches with shadowing, conflicts, several devices per file and edits of every kind (incl. device nodes completed from real host nodes) x random OCI specs x ordered selections, comparing the resulting OCI spec with the model and with apply(combined) computed from the declared resolution.", 'note': 'Trusted: as C01 and C03 (Apply model, known finding C03/env-existing-name is inside Apply and affects model and code alike). Spec identity is (priority, path). No axioms.', 'technique': 'Coq proof (walk invariant relating the seen-Spec set to the declarative first-of-its-file test; refinement) + differential correspondence via vm_compute'}
